@@ -8,7 +8,7 @@ from common import hx, fill
 from nla import *
 
 GROUP = "nla"
-MODEL_FILES = ["coq/Msg.v", "coq/LayoutsNtlm.v", "coq/Cssp.v", "coq/DerRead.v", "coq/Link.v"]
+MODEL_FILES = ["coq/Msg.v", "coq/LayoutsNtlm.v", "coq/Cssp.v", "coq/DerRead.v", "coq/Link.v", "coq/CsspGate.v", "coq/CsspGateExec.v"]
 PROFILES = ["debug", "release"]
 RULE = ("per parser entry (tsreq = read_ts_server_challenge, tsval = read_ts_validate, chal = Ntlm::read_challenge_message, "
         "unwrap = gss_unwrapex, cssp = cssp_connect over an in-memory link): a valid message from the python reference encoder, "
@@ -18,7 +18,9 @@ RULE = ("per parser entry (tsreq = read_ts_server_challenge, tsval = read_ts_val
         "extensions; TSRequest with empty / absent / several negoTokens, absent / extra optional fields, every DER tag and length "
         "octet at {0,1,0x7f,0x80,0x81,0x82,0x84,0x88,0xff,..}, non-minimal and indefinite lengths, 32/64-bit lengths; sealed tokens "
         "valid / bit-flipped / truncated / extended; all byte strings of length <= 2 (quick) / <= 3 over a boundary set (thorough) at "
-        "each entry; seeded random corruption; client credentials empty / ASCII / non-BMP / long.  Non-trivial = anything that is not "
+        "each entry; seeded random corruption; client credentials empty / ASCII / non-BMP / long; validly SEALED hostile pubKeyAuth plaintexts "
+        "(a server that knows the session key: empty, 1..17 bytes, key length -1/0/+1, 1000..3000 bytes, every truncation of the token up to 32 bytes) "
+        "through the whole cssp_connect with a preset certificate (op csspgate, C01's harness and model).  Non-trivial = anything that is not "
         "an immediate EOF on a string shorter than 4 bytes.")
 TRUSTED_BASE = ["Coq 8.16.1 kernel (vm_compute for the per-layout `safe` obligations and the non-vacuity instance)",
                 "hand-written models coq/Msg.v, coq/LayoutsNtlm.v, coq/Cssp.v tied to /repo by this correspondence run",
@@ -273,9 +275,38 @@ def cssp_cases(quick, rng):
     add([good], "creds", cr=creds(b"", b"", b"")); add([good], "creds", cr=creds("dé".encode(), "\U0001f600".encode(), b"x" * 2000))
     return out
 
+# validly SEALED hostile tokens need the real keys: these cases run the real cssp_connect through C01's harness op (`csspgate`:
+# preset certificate + preset randomness, so the final round is reached) and C01's extracted model (concrete MD4/MD5/RC4)
+OP_GROUPS = {"csspgate": "csspgate"}
+
+def sealed_cases(quick, rng):
+    """a server that KNOWS the session key and seals hostile plaintexts as pubKeyAuth: empty, short, off-by-one around the
+    key length, long, beyond one link read; plus every truncation of the token below / around the signature"""
+    import c01, credssp
+    out = []
+    F = nlmp_flags()
+    cfgs = [c01.Cfg(rng, "user", "DOM", "pw", F), c01.Cfg(rng, "Usér", "", "p\U0001F600", F, mode="hash", cert=1, ra=True)]
+    for c in cfgs:
+        pk = credssp.pubkey(c.cert)
+        lens = [0, 1, 2, 3, 15, 16, 17, len(pk) - 1, len(pk), len(pk) + 1, 1000, 1400, 1484, 1500, 3000] + ([] if quick else list(range(4, 15)) + [4000, 20000, 70000])
+        for n in lens:
+            for fillb in ((0,), (0xff,), None):
+                pt = bytes(rng.randrange(256) for _ in range(n)) if fillb is None else bytes(fillb) * n
+                out.append((c.final(c.s2c().seal(pt), "sealed-hostile")[0], ("csspgate", "sealed:%d" % n)))
+        honest = c.s2c().seal(credssp.le_add(pk, 1))
+        for cut in list(range(0, 33)) + [len(honest) - 1]:
+            out.append((c.final(honest[:cut], "trunc")[0], ("csspgate", "trunc")))
+        out.append((c.final(honest, "honest")[0], ("csspgate", "honest")))
+    return out
+
+def nlmp_flags():
+    import nlmp
+    return nlmp.CLIENT_FLAGS | nlmp.NEG_VERSION
+
 def gen_cases(tier, rng):
     quick = tier == "quick"
     cases = []
+    cases += sealed_cases(quick, rng)
     cases += der_cases("tsreq", tsreq_items(), quick, rng, tree=ts_tree(nego=[b"\x01\x02\x03"]))
     cases += der_cases("tsval", tsval_items(), quick, rng, tree=ts_tree(pub_key_auth=b"\x01\x02\x03"))
     cases += chal_cases(quick, rng)
@@ -303,6 +334,7 @@ def received(line):
     if f[0] in ("tsreq", "tsval", "unwrap"): return tok_len(f[1]), 0
     if f[0] == "chal": return tok_len(f[5]), sum(tok_len(x) for x in f[2:5])
     if f[0] == "csspnla": return sum(tok_len(x) for x in f[5].split(",")), sum(tok_len(x) for x in f[2:5])
+    if f[0] == "csspgate": return sum(tok_len(x) for x in f[10].split(",")), sum(tok_len(x) for x in f[2:5])
     return 0, 0
 
 def alloc_limit(line):
